@@ -10,9 +10,9 @@ import (
 
 func c01Spec() genSpec {
 	if verif.Tier() > 0 {
-		return genSpec{depth: 2, keys: []string{"a", "b"}, maxList: 2, prims: 2}
+		return genSpec{depth: 2, keys: []string{"a", "b"}, maxList: 2, prims: 2, mixed: true}
 	}
-	return genSpec{depth: 1, keys: []string{"a", "b"}, maxList: 2, prims: 1}
+	return genSpec{depth: 1, keys: []string{"a", "b"}, maxList: 2, prims: 1, mixed: true}
 }
 
 // mkSource gives B to Merge as generic map, or as *Config.
@@ -115,15 +115,28 @@ func H_C01_laws() {
 // H_C01_chain: three merges against the model fold.
 func H_C01_chain() {
 	sp := genSpec{depth: 1, keys: []string{"a"}, maxList: 1, prims: 1}
+	// the source of a merge may itself be the result of merges (a *Config that went through a type change)
+	viaConfig := verif.Choice("chain-source-is-config", 2) == 1
 	a := nDict().set("k", genNode("A.k", sp, true))
 	b := nDict().set("k", genNode("B.k", sp, true))
 	c := nDict().set("k", genNode("C.k", sp, true))
 	pol := verif.Choice("policy", nPolicies)
 	cfg, err := ucfg.NewFrom(a.toGo())
 	verif.Assume(err == nil)
-	verif.Assert(cfg.Merge(b.toGo(), polOpts(pol)...) == nil, "C01/chain/merge B accepted")
-	verif.Assert(cfg.Merge(c.toGo(), polOpts(pol)...) == nil, "C01/chain/merge C accepted")
-	want := mergeVal(constPol(pol), nil, mergeVal(constPol(pol), nil, a, b), c)
+	var want *Node
+	if viaConfig {
+		// C.Merge(X) where X = A.Merge(B): the merged config is the source
+		verif.Assert(cfg.Merge(b.toGo(), polOpts(pol)...) == nil, "C01/chain/merge B accepted")
+		dst, err := ucfg.NewFrom(c.toGo())
+		verif.Assume(err == nil)
+		verif.Assert(dst.Merge(cfg, polOpts(pol)...) == nil, "C01/chain/merge of a merged config accepted")
+		want = mergeVal(constPol(pol), nil, c, mergeVal(constPol(pol), nil, a, b))
+		cfg = dst
+	} else {
+		verif.Assert(cfg.Merge(b.toGo(), polOpts(pol)...) == nil, "C01/chain/merge B accepted")
+		verif.Assert(cfg.Merge(c.toGo(), polOpts(pol)...) == nil, "C01/chain/merge C accepted")
+		want = mergeVal(constPol(pol), nil, mergeVal(constPol(pol), nil, a, b), c)
+	}
 	got, err := unpackTree(cfg)
 	verif.Reach("chain compared")
 	verif.Assert(err == nil && eqTree(got, want), "C01/chain result/"+polName[pol])
